@@ -23,7 +23,10 @@ IDENT = {"<alloc::vec::Vec<T, A> as core::ops::deref::Deref>::deref", "<[T] as c
          "<alloc::vec::Vec<T, A> as core::convert::AsRef<alloc::vec::Vec<T, A>>>::as_ref",
          "<alloc::vec::Vec<T, A> as core::convert::AsRef<[T]>>::as_ref", "core::hint::must_use",
          "<I as core::iter::traits::collect::IntoIterator>::into_iter"}
-LEN = {"core::slice::<impl [T]>::len", "alloc::vec::Vec::<T, A>::len", "alloc::string::String::len", "core::str::<impl str>::len"}
+LEN = {"core::slice::<impl [T]>::len", "alloc::vec::Vec::<T, A>::len", "alloc::string::String::len", "core::str::<impl str>::len",
+       "alloc::collections::vec_deque::VecDeque::<T, A>::len"}
+IS_EMPTY = {"core::slice::<impl [T]>::is_empty", "alloc::vec::Vec::<T, A>::is_empty", "alloc::string::String::is_empty", "core::str::<impl str>::is_empty",
+            "alloc::collections::vec_deque::VecDeque::<T, A>::is_empty"}
 
 MS = {"chrono::time_delta::TimeDelta::days": 86_400_000, "chrono::time_delta::TimeDelta::hours": 3_600_000,
       "chrono::time_delta::TimeDelta::minutes": 60_000, "chrono::time_delta::TimeDelta::seconds": 1000,
@@ -355,6 +358,19 @@ class FnAnalysis:
             if (b[1].startswith("Sub")) and (("le", b[3], b[2]) in st.rel or ("lt", b[3], b[2]) in st.rel) and lo == 0:
                 return False
             return None
+        if k == "bin" and c[1] in ("BitAnd", "BitOr") and c[4] == "bool":
+            x, y = self.truth(st, c[2]), self.truth(st, c[3])
+            if c[1] == "BitAnd":
+                if x is False or y is False:
+                    return False
+                if x is True and y is True:
+                    return True
+            else:
+                if x is True or y is True:
+                    return True
+                if x is False and y is False:
+                    return False
+            return None
         if k == "bin" and c[1] in ("Lt", "Le", "Eq", "Ne"):
             a, b = c[2], c[3]
             ra, rb = self.range_of(st, a), self.range_of(st, b)
@@ -572,6 +588,10 @@ class FnAnalysis:
             v = ("len", args[0])
             self._reg(v, "usize")
             return v
+        if name in IS_EMPTY or decl in IS_EMPTY:
+            v = ("len", args[0])
+            self._reg(v, "usize")
+            return mk_in(v, "usize", ((0, 0),))
         m = eng.value_models.get(name) or eng.value_models.get(decl)
         if m:
             v = m(self, st, t, args)
